@@ -99,7 +99,8 @@ pub fn map_model(op: &MapOp, x: &[X]) -> Vec<Exp> {
             .map(|i| match lagged(x, i, *k as i64) {
                 None => ex(fill.unwrap_or(None)),
                 Some(b) => match (x[i], b) {
-                    (Some(a), Some(b)) => Exp::val(a - b),
+                    // inf - inf is not a number: null
+                    (Some(a), Some(b)) => if (a - b).is_nan() { Exp::NULL } else { Exp::val(a - b) },
                     _ => Exp::NULL,
                 },
             })
@@ -108,7 +109,7 @@ pub fn map_model(op: &MapOp, x: &[X]) -> Vec<Exp> {
             .map(|i| match lagged(x, i, *k as i64) {
                 None => Exp::NULL,
                 Some(b) => match (x[i], b) {
-                    (Some(a), Some(b)) if b != 0.0 => Exp::val(a / b - 1.0),
+                    (Some(a), Some(b)) if b != 0.0 => if (a / b - 1.0).is_nan() { Exp::NULL } else { Exp::val(a / b - 1.0) },
                     _ => Exp::NULL,
                 },
             })
